@@ -2,7 +2,9 @@ package vanguard
 
 import (
 	"bytes"
+	"google.golang.org/genproto/googleapis/api/annotations"
 	"net/http"
+	"net/url"
 	"sync"
 
 	"connectrpc.com/connect"
@@ -39,8 +41,42 @@ func drainDistinct(p *sync.Pool, n int) bool {
 	return ok
 }
 
+// drainUnshared takes up to n buffers out of the buffer pool and reports whether they are pairwise distinct
+// objects over pairwise distinct memory: each one is given its own marker, and every marker must still be
+// there afterwards (two Buffers over one array overwrite each other's).
+func drainUnshared(p *sync.Pool, n int) bool {
+	var seen []*bytes.Buffer
+	ok := true
+	for i := 0; i < n; i++ {
+		x := p.Get()
+		if x == nil {
+			break
+		}
+		b, isB := x.(*bytes.Buffer)
+		if !isB {
+			continue
+		}
+		for _, s := range seen {
+			if s == b {
+				ok = false
+			}
+		}
+		b.Reset()
+		b.WriteString("MARKER-")
+		b.WriteByte(byte('0' + i))
+		seen = append(seen, b)
+	}
+	for i, b := range seen {
+		want := "MARKER-" + string([]byte{byte('0' + i)})
+		if b.String() != want {
+			ok = false
+		}
+	}
+	return ok
+}
+
 func poolsSound(tr *Transcoder) bool {
-	ok := drainDistinct(&tr.bufferPool.Pool, 8)
+	ok := drainUnshared(&tr.bufferPool.Pool, 8)
 	if cp := tr.compressors[CompressionGzip]; cp != nil {
 		// these pools have a New func, so draining always yields objects: distinctness over 4 draws
 		ok = drainDistinct(&cp.compressors, 4) && ok
@@ -338,4 +374,65 @@ func hC14Nested() {
 	verifAssert(wantB.status == gotB.status && bytesEq(wantB.out, gotB.out) && headersEqual(wantB.hdr, gotB.hdr),
 		"C14: the response of the RPC running in between is the same as if it ran alone")
 	verifAssert(poolsSound(p.tr), "C14: no pooled object is owned twice after two overlapping RPCs")
+}
+
+// hC14Alias: a REST client uploads a google.api.HttpBody (raw bytes, gzip-compressed, decompressing to more than
+// a pooled buffer that only held the compressed form) to a REST backend of a service without compression: the
+// bytes are decompressed, bound into the message and taken out of it again without any re-encoding. A second
+// upload runs in its entirety when the first one's handler has been entered but has not read its body yet. Each
+// backend must see exactly its own upload, and no two pooled buffers may end up over the same memory.
+func hC14Alias() {
+	svc := newFakeService(pipeSvc)
+	svc.addMethodIn(pipeMethod, fkUnary, 0, false, fakeHTTPBodyDesc())
+	backendA := &pipeBackend{target: ProtocolREST, unary: true, codec: CodecJSON, bufSize: 64}
+	backendB := &pipeBackend{target: ProtocolREST, unary: true, codec: CodecJSON, bufSize: 64}
+	closeBody := verifChoose("handlerClosesBody", 2) == 1
+	backendA.closeBody, backendB.closeBody = closeBody, closeBody
+	expand := []int{1, 3}[verifChoose("expand", 2)]
+	fc := &fakeConfig{protocols: []Protocol{ProtocolREST}, codecs: []string{CodecJSON}, maxMsg: 8192, fieldsMode: true, expand: expand}
+	rules := []*annotations.HttpRule{{Selector: pipeSvc + "." + pipeMethod, Pattern: &annotations.HttpRule_Post{Post: "/upload"}, Body: "*"}}
+	tr, err := newFakeTranscoder(svc, &nestDispatch{a: backendA, b: backendB}, fc, rules, nil)
+	verifAssert(err == nil, "HttpBody rule accepted")
+	if err != nil {
+		return
+	}
+	size := []int{3, 400}[verifChoose("size", 2)]
+	mk := func(first byte, fill byte) []byte {
+		b := make([]byte, size)
+		for i := range b {
+			b[i] = fill
+		}
+		b[0] = first
+		return b
+	}
+	rawA := mk(verifNondetByte("a"), 'x')
+	rawB := mk(verifNondetByte("b"), 'y')
+	upload := func(raw []byte) int {
+		req := &http.Request{Method: "POST", URL: &url.URL{Path: "/upload"}, Proto: "HTTP/1.1", ProtoMajor: 1, ProtoMinor: 1,
+			Header: http.Header{"Content-Type": {"text/plain"}, "Content-Encoding": {"gzip"}}, Body: &fakeBody{data: refToyCompress(raw)}, ContentLength: -1}
+		sink := newFakeSink()
+		tr.ServeHTTP(sink, req)
+		return sink.status
+	}
+	backendA.script = &respScript{msgs: []wireMsg{{}}}
+	backendB.script = &respScript{msgs: []wireMsg{{}}}
+	statusB := 0
+	overlap := verifChoose("overlap", 2) == 1
+	backendA.hook = func(point int) {
+		if point == 0 && overlap {
+			statusB = upload(rawB) // (nestDispatch routes this inner call to backendB)
+		}
+	}
+	statusA := upload(rawA)
+	if !overlap {
+		tr.methods[pipePath].handler = backendB
+		statusB = upload(rawB)
+	}
+	verifObsInt("status-a", int64(statusA))
+	verifObsInt("status-b", int64(statusB))
+	verifObsInt("a-bytes", int64(len(backendA.rec.body)))
+	verifReach("two-uploads")
+	verifAssert(backendA.rec.calls == 1 && statusA == 200 && bytesEq(backendA.rec.body, expandBytes(rawA, expand)), "C14: the bytes of an upload reach its backend unchanged while another upload is served in between")
+	verifAssert(backendB.rec.calls == 1 && statusB == 200 && bytesEq(backendB.rec.body, expandBytes(rawB, expand)), "C14: the upload served in between reaches its backend unchanged")
+	verifAssert(poolsSound(tr), "C14: no two pooled buffers share memory after the uploads")
 }
